@@ -7,7 +7,7 @@
     the spawned handler tasks AND all handler outcomes (result / None / panic). *)
 From Coq Require Import List NArith Bool String.
 Import ListNotations.
-From EV Require Import Base.LTS Gen.C24_Dispatch C24.Model C24.Proofs.
+From EV Require Import Base.LTS Gen.C24_Dispatch C24.Model C24.Proofs C24.Justified.
 Local Open Scope string_scope.
 Local Open Scope list_scope.
 
@@ -53,6 +53,24 @@ Theorem server_keeps_serving :
     (List.length sched <= measure (init msgs))%nat /\
     (exists sched' s', run (step today) s sched' = Some s' /\ quiescent (step today) s').
 Proof. exact Proofs.server_keeps_serving. Qed.
+
+(** Responses are never of the wrong kind (any session, any schedule, at every point): an id is
+    answered "request cancelled" only if the session contains a `$/cancelRequest` for that id ... *)
+Theorem cancelled_only_if_asked :
+  forall (msgs : list msg) (sched : list label) (s : state) (i : rid),
+    run (step today) (init msgs) sched = Some s ->
+    In (i, CCancelled) (st_out s) -> cancel_in i msgs = true.
+Proof. exact Justified.cancelled_only_if_asked. Qed.
+
+(** ... and every response has a class that some request with that id justifies: MethodNotFound
+    only for an unregistered method, InvalidParams only for params that do not deserialise, a
+    result / InternalError / cancelled only for a registered method with valid params (or the
+    result of shutdown / initialize), ServerNotInitialized only before `initialize`. *)
+Theorem responses_justified :
+  forall (msgs : list msg) (sched : list label) (s : state) (i : rid) (r : rclass),
+    run (step today) (init msgs) sched = Some s ->
+    In (i, r) (st_out s) -> justified today msgs i r = true.
+Proof. exact Justified.responses_justified. Qed.
 
 (** The three defects of the tree before the repairs, as refutations for the configuration
     with the respective repair missing. *)
